@@ -408,7 +408,7 @@ func parentArg(o any, form string) any {
 
 func (w *world) step(st J) J {
 	op := str(st["op"])
-	obs := J{"op": op}
+	obs := J{"op": op, "obj": str(st["obj"])}
 	var err error
 	name := str(st["obj"])
 	panicked := guard(func() {
